@@ -133,6 +133,7 @@ TODO_REASON = 'check not built yet in this round (planned, see DESIGN.md section
 # /repo on every run, `Src.f = Model.f` proved in BC/Props/<id>Src.lean; DESIGN.md section 0.8)
 SRC_TIES = {
     'C01': 'the loop-body statements of _integrate (the integration step), the initial state, the Vector operators, Wind.vector, barrel elevation/azimuth, drag_by_mach',
+    'C02': 'zero_angle in slices (start on the sight line, zero distance, loop condition, error and correction from the trial row, verdict)',
     'C03': '_TrajectoryDataFilter.__init__/should_record/check_next_time and the skip loop',
     'C04': 'the limit check (three limits, reason chain), the while condition and min_step of _integrate',
     'C05': 'create_trajectory_row with the _new_* constructors, get_correction, calculate_energy/ogw, spin_drift, calc_stability_coefficient',
